@@ -290,9 +290,19 @@ impl Workspace {
         } else {
             self.root.join(path)
         };
-        abs.strip_prefix(&self.root)
-            .map(|p| p.to_path_buf())
-            .map_err(|_| io::Error::new(io::ErrorKind::InvalidInput, "path outside workspace"))
+        let rel = abs
+            .strip_prefix(&self.root)
+            .map_err(|_| io::Error::new(io::ErrorKind::InvalidInput, "path outside workspace"))?;
+        if rel
+            .components()
+            .any(|component| matches!(component, Component::ParentDir))
+        {
+            return Err(io::Error::new(
+                io::ErrorKind::InvalidInput,
+                "path escapes workspace root",
+            ));
+        }
+        Ok(rel.to_path_buf())
     }
 
     fn safe_join(&self, rel: &Path) -> io::Result<PathBuf> {
